@@ -23,8 +23,9 @@ model's `get` / `seekObs`; writes touch the node itself, flushes the node and it
   persist|persistsync <id>                  -> <n>
   pbegin <id> <tmp>                         -> <n>               step 1 of persist, `tmp` = number of tempstore
   pwrite <id>                               -> ok                step 2
-  pend <id>                                 -> ok                step 3 (success)
-  pfail <id>                                -> ok                step 3 (PutChangeSet failed; nothing written)
+  pend <id>                                 -> ok alias=0        step 3 (success); alias: are the store's maps the map
+  pfail <id>                                -> ok alias=1        objects the tempstore held (Model/Store/Locks.lean)
+                                                     step 3 (PutChangeSet failed; nothing written)
   ppriv <id> <p>*                           -> <n>
 -/
 import NeoModel.Base.Proto
@@ -32,6 +33,7 @@ import NeoModel.Model.Store
 import NeoModel.Model.Store.Dao
 import NeoModel.Model.Store.Window
 import NeoModel.Model.Store.GC
+import NeoModel.Model.Store.Locks
 open NeoModel NeoModel.Store
 
 inductive HNode where
@@ -236,7 +238,7 @@ def step (h : Heap) (ws : List String) : Heap × String :=
         | some (.cached L t) =>
           match h.find t with
           | some (.cached T low) =>
-            (h.set i (.cached { L with mem := mapCopy T.mem L.mem, stor := mapCopy T.stor L.stor } low), "ok")
+            (h.set i (.cached (fillLayer L T) low), "ok")
           | _ => (h, "bad-op")
         | _ => (h, "bad-op")
       else (h, "bad-op")
@@ -309,13 +311,22 @@ def Heap.tempsThenBase (h : Heap) (temps : List Nat) : Nat → Nat → Bool
     | some (.cached _ ps) => temps.contains id && h.tempsThenBase temps fuel ps
     | none => false
 
+/-- the store a scan of `id` stops at: the first shared (non-private) cache layer at or below it — the
+reader's own private layers above it have no lock and no lower-store wrapper. -/
+def Heap.firstShared (h : Heap) : Nat → Nat → Option Nat
+  | 0, _ => none
+  | fuel + 1, id =>
+    match h.find id with
+    | some (.cached L ps) => if L.priv then h.firstShared fuel ps else some id
+    | _ => none
+
 def stepSt (st : St) (ws : List String) : St × String :=
   match ws with
   | ["case", k] => ({}, s!"case {k}")
   | ["seekb", id, hold, pfx, start, bw, cut, lim] =>
     match id.toNat?, hold.toNat?, Hex.decode pfx, Hex.decode start, lim.toNat? with
     | some i, some hd, some p, some s, some l =>
-      match st.h.pathTo hd (st.h.length + 1) i with
+      match (if st.h.firstShared (st.h.length + 1) i == some hd then st.h.pathTo hd (st.h.length + 1) i else none) with
       | some (layers, psId) =>
         let rng : SeekRange := { pfx := p, start := s, bw := parseBool bw, depth := 0 }
         ({ st with pend := some { id := i, hold := hd, layers := layers, psId := psId, s0 := st.h.viewOf i,
@@ -334,6 +345,12 @@ def stepSt (st : St) (ws : List String) : St × String :=
       let alt := showKVs (pd.s0.seekSplit (st.h.viewOf pd.id) pd.rng pd.cut pd.lim)
       let applies := pd.id == pd.hold && st.h.tempsThenBase st.temps (st.h.length + 1) pd.psId
       ({ st with pend := none }, if applies && alt != res then res ++ " SPLIT-MODEL-DIFFERS " ++ alt else res)
+  | ["pend", _] =>
+    let (h', out) := step st.h ws
+    ({ st with h := h' }, if out == "ok" then out ++ (if Locks.aliasedAfter .finishOk then " alias=1" else " alias=0") else out)
+  | ["pfail", _] =>
+    let (h', out) := step st.h ws
+    ({ st with h := h' }, if out == "ok" then out ++ (if Locks.aliasedAfter .finishFail then " alias=1" else " alias=0") else out)
   | ["pbegin", _, tmp] =>
     let (h', out) := step st.h ws
     let temps := match tmp.toNat? with | some t => if out == "0" then st.temps else t :: st.temps | none => st.temps
